@@ -456,7 +456,7 @@ func genFamily(r *gal.Rand, tier string) *Case {
 			w = append(w, "c0")
 		}
 		for i := range c.Archs {
-			c.Runs = append(c.Runs, Run{Arch: i, World: w, Multi: true})
+			c.Runs = append(c.Runs, Run{Arch: i, World: w, Multi: true, Plain: true})
 		}
 	}
 	return c
